@@ -49,10 +49,28 @@ def r28(F):
                 labs = o.at(rv["ops"][idx], b)
                 cs = calls_in(labs)
                 ok = cs == {STACK + "new"} and not [l for l in labs if l[0] == "param"]
+                if not ok and VM + "with_pointer" in cs and name != VM + "with_pointer":
+                    # struct update from the other constructor (`VM { .., ..Self::with_pointer(..) }`): the table is the one
+                    # with_pointer built (checked above), provided nothing of *this* VM's own table flows in
+                    pl_ = op_place(rv["ops"][idx])
+                    if pl_ is not None and pl_["p"] and isinstance(pl_["p"][0], dict) and pl_["p"][0].get("f") == "symbols":
+                        src_calls = [callee(t) for bb, t in fn.calls() if t["dest"]["l"] == pl_["l"] and not t["dest"]["p"]]
+                        src_assigns = [1 for bb, j2, pl2, rv2, m2 in fn.assigns() if pl2["l"] == pl_["l"] and not pl2["p"]]
+                        ok = src_calls == [VM + "with_pointer"] and not src_assigns
                 found = True
                 r.inst("%s:symbols" % name.split("::")[-1], fn.where(b), ok, "symbols = Stack::new()" if ok else "constructor does not start from an empty symbol table (%s)" % sorted(cs))
         need(found, "no VM aggregate in %s" % name)
     return r
+
+
+def AI_visited_helpers(F, fn, contains):
+    """the crate functions called from fn that hold one of the `contains` calls"""
+    out = []
+    for b, t in fn.calls():
+        c = callee(t)
+        if c in F.fns and any(callee(t2) in contains for b2, t2 in F.fns[c].calls()):
+            out.append((c, b))
+    return out
 
 
 def r29(F):
@@ -68,7 +86,9 @@ def r29(F):
         cs = [(b, t) for b, t in f.calls() if callee(t).endswith("BTreeSet::contains")]
         o = Origins(f) if cs else None
         for cb, ct in cs:
-            if ("field", "reserved_words") not in o.at(ct["args"][0], cb):
+            labs0 = o.at(ct["args"][0], cb)
+            # the set: the VM's field, or the function behind it called directly
+            if ("field", "reserved_words") not in labs0 and not any(l[0] == "call" and l[1].endswith("::reserved_words") for l in labs0):
                 continue
             sws = util.bool_switches(f, ct["dest"]["l"])
             if not sws:
@@ -77,8 +97,28 @@ def r29(F):
             return sb, (target_block not in cfg.reachable(f, tt) and target_block not in cfg.reachable(f, 0, removed={cb}))
         return None
     g = reserved_guard(fn, add[0])
-    if g is not None:
-        r.inst("binding_push:reserved-source", fn.where(g[0]), True, "looked up in self.reserved_words")
+    if g is None:
+        # the test may sit in a private helper binding_push delegates to: decide by evaluation (absint) - with the set lookup
+        # answering "reserved", symbols.add is not entered; with "not reserved" it is
+        from .. import absint as AI
+        contains = sorted({callee(t) for n_, f_ in F.fns.items() if n_.startswith(VM) and not f_.derived for b_, t in f_.calls()
+                           if callee(t).endswith("BTreeSet::contains") or callee(t).endswith("BTreeSet<T, A>::contains")})
+        def entered(reserved):
+            sim = AI.Sim(F, force_all=dict({c: ("b", reserved) for c in contains}, **{STACK + "is_bound": ("b", False)}), opaque={STACK + "add"})
+            try:
+                sim.run(fn, [AI.U] * fn.nargs)
+            except AI.Lossy as e:
+                need(False, "binding_push: %s" % e)
+            return any(callee(F.fns[n].term(b)) == STACK + "add" for n, b in sim.visited if n in F.fns and F.fns[n].term(b)["k"] == "call")
+        if contains and entered(False) and not entered(True):
+            helpers = sorted({n for n, b in AI_visited_helpers(F, fn, contains)})
+            r.inst("binding_push:reserved-source", fn.where(), True, "looked up in the reserved-word set (in %s)" % (", ".join(h.split("::")[-1] for h in helpers) or "a helper"))
+            r.inst("binding_push:reserved", fn.where(), True, "a reserved word never reaches symbols.add")
+            g = "done"
+    if g == "done":
+        pass
+    elif g is not None:
+        r.inst("binding_push:reserved-source", fn.where(g[0]), True, "looked up in the reserved-word set")
         r.inst("binding_push:reserved", fn.where(g[0]), g[1], "a reserved word never reaches symbols.add" if g[1] else
                "symbols.add reachable for a reserved word / without the test")
     else:
@@ -94,16 +134,24 @@ def r29(F):
                    "the caller refuses reserved words before binding" if ok else
                    "%s binds names through binding_push without the reserved-word test (which binding_push no longer makes): a keyword is "
                    "accepted as a %s" % (n.split("::")[-1], "function parameter" if "fcall" in n else "binding name"))
-    ib = [(b, t) for b, t in fn.calls() if callee(t) == STACK + "is_bound"]
-    need(ib, "is_bound not called")
-    b, t = ib[0]
-    sb, ft, tt = util.bool_switches(fn, t["dest"]["l"])[0]
-    # on the bound edge, strict decides
-    ssw = [s for s in util.bool_switches(fn, 4) if cfg.dominates(fn, tt, s[0])]
-    need(ssw, "`strict` is not tested on the already-bound edge")
-    s_sb, s_ft, s_tt = ssw[0]
-    ok = add[0] not in cfg.reachable(fn, s_tt) and add[0] not in cfg.reachable(fn, 0, removed={b})
-    r.inst("binding_push:rebinding", fn.where(s_sb), ok, "bound && strict never reaches symbols.add" if ok else "a strict rebinding can reach symbols.add")
+    # the already-bound test, by evaluation (absint): with is_bound() forced and the strict flag given, is symbols.add entered?
+    # Independent of the order of the two tests and of helpers binding_push delegates to
+    from .. import absint as AI
+    need(fn.nargs >= 4 and fn.local_ty(4) == "bool", "binding_push(&mut self, name, val, strict: bool) expected")
+    def add_entered(bound, strict):
+        sim = AI.Sim(F, force_all={STACK + "is_bound": ("b", bound)}, opaque={STACK + "add"})
+        try:
+            sim.run(fn, [AI.U, AI.U, AI.U, ("b", strict)] + [AI.U] * (fn.nargs - 4))
+        except AI.Lossy as e:
+            need(False, "binding_push: %s" % e)
+        return any(callee(F.fns[n].term(b)) == STACK + "add" for n, b in sim.visited if n in F.fns and F.fns[n].term(b)["k"] == "call")
+    table = {(bnd, st): add_entered(bnd, st) for bnd in (True, False) for st in (True, False)}
+    need(table[(False, True)] and table[(False, False)], "binding_push: symbols.add is not reached even for an unbound name (the evaluation lost the path)")
+    ok = not table[(True, True)]
+    r.inst("binding_push:rebinding", fn.where(add[0]), ok, "bound && strict never reaches symbols.add" if ok else "a strict rebinding can reach symbols.add")
+    ok2 = table[(True, False)]
+    r.inst("binding_push:non-strict-rebinding", fn.where(add[0]), ok2, "a non-strict bind (function parameters, format item) may shadow" if ok2 else
+           "a non-strict bind of a bound name no longer reaches symbols.add: parameters cannot shadow")
     return r
 
 
@@ -111,6 +159,7 @@ def r30(F):
     r = RuleResult("R30", "rebinding opcode only at the two whitelisted sites",
                    "Op::BindOver is built only for the format expression's `item` and as the second bind of a constraint statement; "
                    "Bind -> op_bind(true), BindOver -> op_bind(false); non-strict binding_push elsewhere only in fcall_impl", floor=6)
+    from .. import flatten
     sites = []
     for n, fn in F.fns.items():
         if fn.derived:
@@ -132,6 +181,14 @@ def r30(F):
         elif n == ts.name and b in con_arm:
             binds = [p for p in TR.pushes(ts) if p["op"] == "Bind" and p["bb"] in con_arm and cfg.dominates(ts, p["bb"], b)]
             r.inst("BindOver@constraint-stmt", ts.where(b), bool(binds), "second bind of a constraint statement (after the strict pre-bind)" if binds else "BindOver in the Constraint arm is not preceded by the strict Bind")
+        elif flatten.sole_caller(F, n) == te.name and all(cb in fmt_arm for cb, ct in te.calls() if callee(ct) == n):
+            # the Format arm (or its `item` branch) moved into a private helper that only that arm calls
+            hf = F.fn(n)
+            oh = Origins(hf)
+            syms = [p for p in TR.pushes(hf) if p["op"] == "Sym" and cfg.dominates(hf, p["bb"], b)]
+            item = any(("const", "str", "item") in oh.at(p["agg"]["ops"][0], p["bb"]) for p in syms)
+            r.inst("BindOver@format-item", hf.where(b), item, "rebinds `item` inside the format expression's own scope (in %s, called from the Format arm only)" % n.split("::")[-1]
+                   if item else "BindOver in the helper of the Format arm does not bind `item`")
         else:
             r.inst("BindOver@%s" % n, F.fn(n).where(b), False, "Op::BindOver built outside the two whitelisted sites: an existing binding can be overwritten")
     # scope of the format item: BindOver lies between the NewScope placeholder and the Return
@@ -160,8 +217,10 @@ def r30(F):
             continue
         fn = F.fn(n)
         t = fn.term(b)
-        ok = n == VM + "fcall_impl" and t["args"][3].get("int") == "0"
-        r.inst("binding_push@%s" % n.split("::")[-1], fn.where(b), ok,
+        from .. import flatten as _fl
+        hn = _fl.home(F, n, {VM + "fcall_impl"})       # a closure of fcall_impl (try_for_each over the bindings) is fcall_impl
+        ok = hn == VM + "fcall_impl" and t["args"][3].get("int") == "0"
+        r.inst("binding_push@%s" % hn.split("::")[-1], fn.where(b), ok,
                "parameters are bound non-strictly into the call's fresh VM" if ok else "unexpected binding_push site (only op_bind and fcall_impl may bind)")
     return r
 
